@@ -28,10 +28,24 @@ class VClock:
         self.DT = _DT
 
     def __enter__(self):
+        import sys
+        import types
         for m in MODS:
-            mod = importlib.import_module(m)
-            self.saved.append((mod, mod.datetime))
-            mod.datetime = self.DT
+            importlib.import_module(m)
+        # every loaded datashard module that binds the name `datetime` (the class, or the module) reads THIS clock — not only the
+        # modules that do so today
+        for name, mod in sorted(sys.modules.items()):
+            if not (name == "datashard" or name.startswith("datashard.")) or mod is None:
+                continue
+            cur = mod.__dict__.get("datetime")
+            if cur is _dt.datetime:
+                self.saved.append((mod, cur))
+                mod.datetime = self.DT
+            elif cur is _dt:
+                shim = types.SimpleNamespace(**{k: getattr(_dt, k) for k in dir(_dt) if not k.startswith("__")})
+                shim.datetime = self.DT
+                self.saved.append((mod, cur))
+                mod.datetime = shim
         return self
 
     def __exit__(self, *a):
